@@ -1,6 +1,6 @@
 (* C13 - An aborted session still leaves a well-formed log of the completed boards.
    Only statements, each closed by [exact]; proofs are in the files imported below. *)
-From BE Require Import Model.Session Model.SessionTie Spec.SessionSpec Proofs.Kahn Proofs.Session Proofs.SessionExamples.
+From BE Require Import Model.Session Model.SessionTie Spec.SessionSpec Proofs.Kahn Proofs.Session Proofs.SessionExamples Model.Json Gen.JsonFraming Proofs.C13Cor.
 From Coq Require Import ZArith.
 Local Open Scope nat_scope.
 Local Open Scope list_scope.
@@ -51,6 +51,17 @@ Theorem C13_abort_log_complete :
   srun l (init_state x) = Some s -> main_ended s -> complete_log (log_events (nconn x) s).
 Proof. exact log_complete_when_main_ends. Qed.
 Print Assumptions C13_abort_log_complete.
+
+(* and such a file - written with the literals regenerated from writer.py - is one JSON document whose records are exactly those *)
+Theorem C13_aborted_log_parses :
+  forall x l s,
+  srun l (init_state x) = Some s -> main_ended s -> log_events (nconn x) s <> [] ->
+  exists recs ts,
+    log_events (nconn x) s = LOpen :: map LRec recs ++ [LClose] /\
+    written_tokens json_framing tag_logs (map record_json recs) = Some ts /\
+    parse_doc ts = Some (JObj [(tag_logs, JArr (map record_json recs))]).
+Proof. exact aborted_log_parses. Qed.
+Print Assumptions C13_aborted_log_parses.
 
 (* which boards are listed does not depend on the schedule *)
 Theorem C13_same_log_under_every_schedule_partial :
